@@ -3,6 +3,7 @@ package mempoolrig
 import (
 	"fmt"
 	"math/big"
+	"os"
 	"sort"
 
 	"github.com/lianxiangcloud/linkchain/libs/common"
@@ -107,7 +108,6 @@ func (e *Engine) checkOffer(txs types.Txs, what string, full bool) {
 	}
 }
 
-
 // prune removes from the live model what the node may legitimately have
 // dropped: consumed nonces, transactions older than an age limit, and
 // transactions that are not covered by the balance at their turn.
@@ -185,6 +185,14 @@ func (e *Engine) oracle(heavy bool) {
 	}
 	e.refreshOffer()
 	e.C.Evals(1)
+	if debugPool {
+		_, pend, q := e.W.Chain.Mempool.Stats()
+		lab := ""
+		for _, tx := range e.offered {
+			lab += " " + e.txLabel(tx)
+		}
+		e.Tracef("  pool: pending=%d queued=%d offer:%s", pend, q, lab)
+	}
 	e.checkOffer(e.offered, "Reap(all)", true)
 	if e.Stopped() {
 		return
@@ -201,8 +209,15 @@ func (e *Engine) oracle(heavy bool) {
 		off[tx.Hash()] = true
 	}
 	if mc.FutureSize < 1000 {
+		var gone []*MTx
 		for h := range before {
-			if m := e.byHash[h]; m != nil && m.Accepted && !off[h] {
+			if m := e.byHash[h]; m != nil && m.Accepted && !m.Pure && !off[h] {
+				gone = append(gone, m)
+			}
+		}
+		sort.Slice(gone, func(i, j int) bool { return gone[i].Seq < gone[j].Seq })
+		for _, m := range gone {
+			if h := m.Hash; m.Accepted && !off[h] {
 				// keep it only if the model says it must still be on offer
 				must, _ := e.mustOffer(m.From)
 				in := false
@@ -280,7 +295,7 @@ func (e *Engine) oracle(heavy bool) {
 			if m.BehindFailed {
 				key += "/behind-failed-promotion"
 			}
-			if !e.Violate("not-offered", key, "u%d nonce %d (%s) was accepted %dms ago, is contiguous from the committed nonce %d, covered by the balance, no size or age limit is in reach (offer %d of size %d, live %d of future %d), yet Reap does not offer it", m.User, m.Nonce, short(m.Hash), (e.now()-m.AcceptedAt).Milliseconds(), e.committedNonce(m.From), len(e.offered), mc.Size, e.liveCount(), mc.FutureSize) {
+			if !e.Violate("not-offered", key, "u%d nonce %d (%s) was accepted %dms ago, is contiguous from the committed nonce %d, covered by the balance, no size or age limit is in reach (offer %d of size %d, live %d of future %d), yet Reap does not offer it", m.User, m.Nonce, short(m.Hash), (e.now() - m.AcceptedAt).Milliseconds(), e.committedNonce(m.From), len(e.offered), mc.Size, e.liveCount(), mc.FutureSize) {
 				// listed finding: the node has lost it; go on without it
 				e.dropLive(m)
 				delete(e.held[m.From], m.Hash)
@@ -356,7 +371,7 @@ func (e *Engine) pureDemands(off map[common.Hash]bool) {
 			e.C.Probe("excused-utxo-list-full")
 			continue
 		}
-		if !e.Violate("not-offered", "spend-not-offered", "confidential spend %s (key image %s) was accepted %dms ago, none of its key images is spent on chain or held by another accepted spend, no size or age limit is in reach (confidential offer %d, Size %d, UTXOSize %d), yet Reap does not offer it", short(m.Hash), kiLabel(m.KIs), (now-m.AcceptedAt).Milliseconds(), len(e.offeredPure), mc.Size, mc.UTXOSize) {
+		if !e.Violate("not-offered", "spend-not-offered", "confidential spend %s (key image %s) was accepted %dms ago, none of its key images is spent on chain or held by another accepted spend, no size or age limit is in reach (confidential offer %d, Size %d, UTXOSize %d), yet Reap does not offer it", short(m.Hash), kiLabel(m.KIs), (now - m.AcceptedAt).Milliseconds(), len(e.offeredPure), mc.Size, mc.UTXOSize) {
 			m.Accepted = false
 			delete(e.livePure, m.Hash)
 			continue
@@ -399,5 +414,7 @@ func (e *Engine) executeOffer() {
 		e.C.Probe("offer-executed-nonempty")
 	}
 }
+
+var debugPool = os.Getenv("MPRIG_DEBUG_POOL") != ""
 
 var _ = fmt.Sprintf
